@@ -1,5 +1,5 @@
 """C09 -- NMT state machine and per-state service gating (CoNode / CoNodeGen)."""
-import common, node_common
+import common, node_common, node_check
 
 def observe(it):
     if it[0] == "tx":
@@ -22,11 +22,12 @@ def run(ctx):
     ctx.mc("MCNode", "C09_mc.cfg")
     behs = ctx.gen_edges("MCNode", "C09_gen.cfg")
     if q:
-        behs = common.thin(behs, 12000, ctx.seed)
+        behs = common.thin(behs, 8000, ctx.seed)
     pre = node_common.make_preamble(cfgfix)
     ctx.replay(behs, pre, observe, ordered=True, label="edges")
     walks = ctx.gen_walks("MCNode", "C09_walk.cfg", num=100 if q else 5000, depth=45)
     ctx.replay(walks, pre, observe, ordered=True, label="walks")
+    node_check.node_id_variant(ctx, "MCNode", "C09", pre, observe, True, (100, 5000), 45, 2500)
     # "each received frame is handled by at most one service": the silent SDO cases (segments inside a download
     # block, start / end of a block upload) only exist inside block transfers, which the node model's minimal SDO
     # server does not contain; a slice of the SDO alphabet model (CoSsdoGen) is replayed with the unclaimed-frame
@@ -34,7 +35,7 @@ def run(ctx):
     import sdo_alpha, sdo_common
     objs = sdo_common.model_dict("MCSsdoGen", "MCDict")
     sb = ctx.gen_edges("MCSsdoGen", "C04_genq.cfg", timeout=3000)
-    sb = common.thin(sb, 2500 if q else 20000, ctx.seed)
+    sb = common.thin(sb, 1500 if q else 20000, ctx.seed)
     ctx.replay(sb, common.wrap(sdo_alpha.preamble_for(objs)), sdo_common.observe, variant="h0", defines=sdo_alpha.VARIANTS["h0"], ordered=True, label="sdo_claimed_frames")
     import sdo_trace
     sdo_trace.run(ctx, 500 if q else 15000, ndlg=8)
